@@ -32,7 +32,8 @@ LEVEL_TEXT = ("Exploration: thousands of (tree, motion) pairs over all shape cla
               "to 1e3, exact (power of two) and generic scale factors from 0.01 to 100, renumberings "
               "with children before parents, and their combinations; ~30 quantities per pair incl. "
               "Sholl at fixed and at derived radii and volume at accuracy 1-3 (5 on unbranched "
-              "trees). Held = held on those executions.")
+              "trees). Held = held on those executions."
+              "Half of the trees carry a file source (as transformed copies of a file-loaded tree do).")
 LEVEL_NOTE = ("Volume terms the library itself samples (accuracy >= 5 on nodes with two or more "
               "children, accuracy 10) are stochastic by design and not compared. Tolerances follow "
               "from float32 rounding of the moved coordinates (eps_pos = 2e-7*(1+max|coord|)): "
